@@ -60,6 +60,10 @@ def syntax_class(op, impl):
         is_prefix = nxt != b"" and nxt.lower() == bytes([f["prefix"]]).lower()
         if not is_prefix:
             return "base-prefix-swallows-leading-zero"
+    # 4. integer parser, base suffix together with no_integer_leading_zeros: the lone zero before the suffix is not a digit run
+    if k == "pi" and f["suffix"] != 0 and f["nolz_int"] and not sep_in_input and body[:1] == b"0" \
+            and body[1:2].lower() == bytes([f["suffix"]]).lower():
+        return "int-zero-before-base-suffix"
     # 3. separator-capable format: a component WITHOUT separator flags mis-counts the 8-digit blocks it parses
     if k in ("pf", "pn") and f["sep"] != 0 and (not f["sep_int"] or not f["sep_frac"]):
         t = op.split(" ")
